@@ -26,6 +26,14 @@ import Operon.Model.Wiring
   handler N mut del|add|relabel|clear entries…   the handler mutates the dict it is given, then answers like ret; the
                                             report's copy of ITS OWN inputs is taken afterwards and is printed as `?`
   setin|setout N P dt il, delin|delout N P, addcap|delcap N c     in-place edit of the registered ModuleSpec's dicts / set
+  unwire a p b q                            diagram.wires.remove(Wire(…))            (bad-op when it is not there)
+  setwire i a p b q                         diagram.wires[i] = Wire(…)               (bad-op when i is past the end)
+  revwires                                  diagram.wires.reverse()
+  delmod N                                  del diagram.modules[N]                   (bad-op when it is not there)
+  setmod N I … O … C …                      diagram.modules[N] = ModuleSpec(…)       (replaces in place / appends)
+  swapdiag                                  both executors' `diagram` attribute is re-assigned to the second diagram;
+                                            from here on every line that spoke about the first diagram speaks about
+                                            that one, and `caps2 / share / mod2` about the former first one
   flow sdt sil ddt dil                      can_flow_to / require_flow_to
   cout|cin raw k pdt pil | typed dt il k pdt pil     _coerce_output / _coerce_input
 -/
@@ -251,6 +259,22 @@ def step (st : DSt) (toks : List String) : DSt × String :=
     match st.d2.addModule ⟨natD n, parsePorts ins, parsePorts outs, cs.map (natD ·)⟩ with
     | .ok d2 => ({ st with d2 := d2 }, "ok ## mod2:ok")
     | .error e => (st, showErr e ++ " ## mod2:" ++ errTag e)
+  | ["unwire", a, p, b, q] =>
+    let w : Wire := ⟨natD a, natD p, natD b, natD q⟩
+    if st.d.wires.contains w then ({ st with d := st.d.removeWire w }, "ok ## unwire") else (st, "bad-op")
+  | ["setwire", i, a, p, b, q] =>
+    if natD i < st.d.wires.length then
+      ({ st with d := st.d.setWire (natD i) ⟨natD a, natD p, natD b, natD q⟩ }, "ok ## setwire")
+    else (st, "bad-op")
+  | ["revwires"] => ({ st with d := st.d.reverseWires }, "ok ## revwires")
+  | ["delmod", n] =>
+    if (st.d.findMod (natD n)).isNone then (st, "bad-op")
+    else ({ st with d := st.d.delModule (natD n), shared := st.shared.filter (· != natD n) }, "ok ## delmod")
+  | "setmod" :: n :: rest =>       -- a fresh ModuleSpec object under that key: no longer shared with the second diagram
+    let (ins, outs, cs) := sections rest
+    ({ st with d := st.d.setModule ⟨natD n, parsePorts ins, parsePorts outs, cs.map (natD ·)⟩,
+               shared := st.shared.filter (· != natD n) }, "ok ## setmod")
+  | ["swapdiag"] => ({ st with d := st.d2, d2 := st.d }, "ok ## swapdiag")
   | ["flow", sdt, sil, ddt, dil] =>
     let s : PortType := ⟨natD sdt, natD sil⟩
     let t : PortType := ⟨natD ddt, natD dil⟩
